@@ -138,21 +138,38 @@ def structure_claims(ctx, tag, B, seed, batch_indices):
         ctx.claim(tag + '_draw_order_respects_dependencies', ok)
 
 
-def h_generate_purity(ctx, program):
-    specs = PROGRAMS[program]
-    names = [s.name for s in specs]
-    outputs = [n for n in names if ctx.flag('out_%s' % n)]
-    if not outputs:
-        raise core.Infeasible()
+def h_generate_purity(ctx, program, family=None):
+    if family:
+        # solver-chosen program (every program of `family` nodes, see C03.family_program); all nodes requested
+        from harness.C03 import family_program
+        specs = family_program(ctx, family)
+        if not any(s.stochastic for s in specs):
+            raise core.Infeasible()
+        names = [s.name for s in specs]
+        outputs = list(names)
+        seed, bs = 100, 2
+        hists = (0, 2, 3)
+    else:
+        specs = PROGRAMS[program]
+        names = [s.name for s in specs]
+        outputs = [n for n in names if ctx.flag('out_%s' % n)]
+        if not outputs:
+            raise core.Infeasible()
+        seed = (0, 100)[ctx.choice('seed_sel', 2)]
+        bs = 1 + ctx.choice('bs_sel', 2)
+        hists = (0, 1, 2, 3, 4)
     dc = draw_counts(specs)
-    seed = (0, 100)[ctx.choice('seed_sel', 2)]
-    bs = 1 + ctx.choice('bs_sel', 2)
     orders = topo_orders(specs)
     oi = ctx.choice('insertion', len(orders))
-    hist = ctx.choice('history', 5)
+    hist = hists[ctx.choice('history', len(hists))]
     with env():
         A = Built(ctx, specs, draw_counts=dc)
-        ra = A.model.generate(bs, outputs, seed=seed)
+        try:
+            ra = A.model.generate(bs, outputs, seed=seed)
+        except ValueError:
+            if family:
+                raise core.Infeasible()      # observed data depends on a stochastic node: rejected (decided by C03)
+            raise
         structure_claims(ctx, 'A', A, seed, [0])
         orderA = [n for n, _, _ in A.drawlog]
         # ---- run B: same program, other insertion order, after a history
@@ -331,6 +348,11 @@ for pname in ('chain', 'indep_priors', 'two_sims', 'two_params_named'):
     HARNESSES.append(H('batches_' + pname, h_batches_purity, dict(program=pname),
                        tiers=('quick', 'thorough') if pname in ('chain', 'indep_priors') else ('thorough',),
                        bounds='program %s; 3 batches of one seeded context in all 6 computation orders + recomputation' % pname))
+HARNESSES.append(H('generate_family_3nodes', h_generate_purity, dict(program=None, family=3), max_paths=400000,
+                   bounds='EVERY program of 3 nodes with at least one stochastic node (names m, c, x created in that order; kinds, '
+                          'positional / named edges, positional order, observations solver-chosen as in C03 gen_family_3nodes); all '
+                          'nodes requested; every topological insertion order; histories none / same seed other outputs / global '
+                          'generator consumed; seed 100, batch_size 2'))
 HARNESSES.append(H('rejection_chain', h_sampler_purity, dict(program='chain'),
                    bounds='Rejection n=2 batch_size=2 2 batches; native sequential vs reordering client (max_parallel 3), 3 histories'))
 
